@@ -26,7 +26,12 @@ C08Law(r) == /\ WordOK(WordR(r.w))
 NoRepeat(ticks) == Cardinality({ ticks[i] : i \in 1..Len(ticks) }) = Len(ticks)
 C02Law(r) == r.out \in {"ok", "err"} /\ r.out2 = "ret" /\ NoRepeat(r.ticks)
 
-Holds(r) == CASE Law = "C02" -> C02Law(r) [] Law = "C06" -> C06Law(r) [] Law = "C07" -> C07Law(r) [] Law = "C08" -> C08Law(r) [] Law = "C14" -> C14Law(r)
+(* C09: a renderable word reads back as itself, and its text is a fixed point of the empty rule list *)
+C09Law(r) == r.ok => (r.b = r.w /\ r.fix)
+(* C01: all observations of one input - in whichever process, call, list position - carry the same result *)
+C01Law(r) == Cardinality({ r.obs[i][4] : i \in 1..Len(r.obs) }) = 1
+
+Holds(r) == CASE Law = "C01" -> C01Law(r) [] Law = "C09" -> C09Law(r) [] Law = "C02" -> C02Law(r) [] Law = "C06" -> C06Law(r) [] Law = "C07" -> C07Law(r) [] Law = "C08" -> C08Law(r) [] Law = "C14" -> C14Law(r)
 
 VARIABLES k, verdict
 Init == k \in 1..Len(Rec) /\ verdict = "?"
